@@ -9,7 +9,7 @@ from . import c11, c16
 
 ID = "C20"
 LEVEL = "fault_enumeration"
-RUNS = (3500, 80000)
+RUNS = (3500, 60000)
 RULE = ("one seeded scenario: (a) a C11 API history with extended getters, or (b) a C01 tree read through one of the eight entry "
         "points with a failure injected at EVERY consulted file in turn (two seeded kinds per position out of: callback veto, "
         "foreign owner, foreign group, symlink under restriction, malformed line, unreadable, vanished after listing, read error "
